@@ -79,7 +79,7 @@ def gen_blocks(rng):
 class C15(Prop):
     id = "C15"
     level = "exploration"
-    RUNS = {"quick": 2500, "thorough": 40000}
+    RUNS = {"quick": 5000, "thorough": 40000}
     BUDGET = {"quick": 75, "thorough": 900}
     ORACLES = ("C15", "O-DELIVERY", "O-IMMUT")
     RULE = ("seeded histories over 1-3 partitions (d in 1..5): get_block on leaf points, combinations, aliased points "
